@@ -1101,7 +1101,9 @@ class tensor:
                [4., 4.]]), array([[4., 4.],
                [4., 4.]])]
         """
+        weights = None
         if isinstance(U, ttb.ktensor):
+            weights = U.weights
             U = U.factor_matrices
         split_idx = min_split(self.shape)
         V = [np.empty_like(self.data, shape=())] * self.ndims
@@ -1119,6 +1121,9 @@ class tensor:
             V[k] = mttv_mid(W, U[k + 1 :])
             W = mttv_left(W, U[k])
         V[-1] = W
+        if weights is not None:
+            # Same as mttkrp for each mode: the weights scale the columns
+            V = [v * weights for v in V]
         return V
 
     @property
